@@ -60,6 +60,9 @@ pub struct Trace {
     /// every clock read by the library advances the simulated clock by this much afterwards
     /// (time passes inside calls); 0 = the clock only moves between calls
     pub read_step_ns: u128,
+    /// the host creates its scanners with `Default::default()` instead of `new(..)` (the polling
+    /// scanner only when the timeout is zero, where the two must be the same)
+    pub ctor_default: bool,
     pub events: Vec<Ev>,
 }
 
@@ -182,7 +185,7 @@ impl Ev {
 
 impl Trace {
     pub fn to_json(&self) -> J {
-        J::obj().set("timeout_ns", J::Str(self.timeout_ns.to_string())).set("read_step_ns", J::Str(self.read_step_ns.to_string())).set("events", J::Arr(self.events.iter().map(|e| e.to_json()).collect()))
+        J::obj().set("timeout_ns", J::Str(self.timeout_ns.to_string())).set("read_step_ns", J::Str(self.read_step_ns.to_string())).set("ctor_default", J::Bool(self.ctor_default)).set("events", J::Arr(self.events.iter().map(|e| e.to_json()).collect()))
     }
 
     pub fn from_json(j: &J) -> Result<Trace, String> {
@@ -201,7 +204,8 @@ impl Trace {
         if rs < 0 {
             return Err("trace: negative read step".into());
         }
-        Ok(Trace { timeout_ns: (t as u128).min(DUR_MAX_NS), read_step_ns: (rs as u128).min(DUR_MAX_NS), events })
+        let ctor_default = matches!(j.get("ctor_default"), Some(J::Bool(true)));
+        Ok(Trace { timeout_ns: (t as u128).min(DUR_MAX_NS), read_step_ns: (rs as u128).min(DUR_MAX_NS), ctor_default, events })
     }
 
     /// 64-bit FNV-1a over a canonical encoding; identifies a decision trace.
@@ -209,6 +213,7 @@ impl Trace {
         let mut h = Fnv::new();
         h.u128(self.timeout_ns);
         h.u128(self.read_step_ns);
+        h.b(self.ctor_default as u8);
         for e in &self.events {
             match e {
                 Ev::EncCc14 { g, ch, cn, val, fac } => {
